@@ -578,7 +578,9 @@ def run_case(case) -> Outcome:
 
 # ---- generation ----------------------------------------------------------------
 ALL_DTS = [rc.BOOLEAN] + sorted(rc.NUMERIC) + list(rc.STRINGS)
-ACCESS = ["rw", "ro", "wo", "const", "rw", "rw"]
+# the four access types the properties name plus CiA 306's "rwr"/"rww" (read-write on process
+# input / output): readable and writable like "rw"
+ACCESS = ["rw", "ro", "wo", "const", "rw", "rw", "rwr", "rww"]
 
 
 def typed_value(dt, max_len=60):
